@@ -523,7 +523,9 @@ func checkUpdate(o *updObs) []viol {
 	usedPlan := make([]bool, len(planned))
 	for i := range before {
 		planOf[i] = -1
-		for p := range planned {
+		// identical entries (a profile can hold the same helper entry twice) are paired the way a
+		// correct plan orders them: the first one of the profile with the last matching change
+		for p := len(planned) - 1; p >= 0; p-- {
 			if usedPlan[p] || planned[p].Action == Mount {
 				continue
 			}
